@@ -63,6 +63,18 @@ def _same(exp, got, where, fails, coords=True):
         fails.append(Fail("result-differs-from-class-method:" + d.split(":")[0].split("[")[0], f"{where}: {d}"))
 
 
+def _totals(got, where, fails):
+    """cdxml: the reference objects below come from the parser's own per-fragment routine, so the totals are judged independently:
+    a parsed drawing's charge / multiplicity are what its atoms' drawn charges / radicals add up to - by whichever entry point"""
+    try:
+        q = sum(a.formal_charge or 0 for a in got.atoms)
+        s2 = sum(a.formal_spin or 0 for a in got.atoms)
+    except Exception:
+        return
+    if got.charge != q or got.mult != s2 + 1:
+        fails.append(Fail("cdxml-totals-differ-from-the-drawn-charges", f"{where}: charge {got.charge} mult {got.mult}, atoms add up to {q} / {s2 + 1}"))
+
+
 def run_load_cell(cell, path_or_text, fmt_real, fails):
     """cell: fn, fmt, src, fmtarg, otype, name"""
     import molli as ml
@@ -141,6 +153,7 @@ def run_load_cell(cell, path_or_text, fmt_real, fails):
             if name is not None:
                 exp.name = got.name     # the name is judged separately, below
             _same(exp, got, where, fails, coords=False)
+            _totals(got, where, fails)
             if name is not None and got.name != name:
                 fails.append(Fail(f"name-override-ignored:{fn}:by-key", f"{where}: result is named {got.name!r}"))
             return "codec"
@@ -150,6 +163,7 @@ def run_load_cell(cell, path_or_text, fmt_real, fails):
                 fails.append(Fail(f"raises:{fn}:{exc_sig(raised) or type(raised).__name__}", f"{where}: {raised!r}"))
                 return "codec"
             _same(exp, got, where, fails, coords=False)
+            _totals(got, where, fails)
         else:
             exp = [cls(cdx._parse_fragment(fg, name=name)) for fg in cdx.xfrags]
             if raised is not None:
@@ -160,6 +174,7 @@ def run_load_cell(cell, path_or_text, fmt_real, fails):
                 return "codec"
             for e_, g_ in zip(exp, got):
                 _same(e_, g_, where, fails, coords=False)
+                _totals(g_, where, fails)
         return "codec"
     meth = {"load": "load_", "loads": "loads_", "load_all": "load_all_", "loads_all": "loads_all_"}[fn] + fmt
     try:
@@ -327,8 +342,14 @@ def run_dump_cell(cell, obj, fails):
         p = os.path.join(d, "out." + (fmt if cell["fmtarg"] == "suffix" else "dat"))
         with open(p, "w") as f:
             f.write(prior)
+        real_p = p
+        if target in ("symlink", "hardlink"):
+            # the path handed over is a second NAME of the file (symbolic link / hard link): the text lands in the file it designates,
+            # and the name stays what it was - what open(path, mode) does
+            p = os.path.join(d, "alias." + (fmt if cell["fmtarg"] == "suffix" else "dat"))
+            (os.symlink if target == "symlink" else os.link)(real_p, p)
         fds_before = len(os.listdir("/proc/self/fd"))
-        args = (obj, p if target == "str" else Path(p)) + (() if cell["fmtarg"] == "suffix" else (fmt,))
+        args = (obj, Path(p) if target == "Path" else p) + (() if cell["fmtarg"] == "suffix" else (fmt,))
         try:
             ml.dump(*args, mode=mode, **kw)
             raised = None
@@ -352,6 +373,11 @@ def run_dump_cell(cell, obj, fails):
         want = (prior if mode == "a" else "") + exp
         if content != want:
             fails.append(Fail(f"file-content-wrong:dump:mode-{mode}", f"{where}: {len(content)} chars, expected {len(want)}"))
+        elif real_p != p:
+            if open(real_p).read() != want:
+                fails.append(Fail(f"text-did-not-reach-the-file-the-path-designates:{target}", f"{where}: the file behind the {target} still holds {open(real_p).read()[:30]!r}"))
+            elif target == "symlink" and not os.path.islink(p):
+                fails.append(Fail("symlink-replaced-by-a-regular-file", where))
         return "codec"
     finally:
         shutil.rmtree(d, ignore_errors=True)
@@ -389,6 +415,9 @@ def dump_cells():
                 for fmtarg in (("explicit", "suffix") if target != "stream" else ("explicit",)):
                     for kw in range(len(KWS)):
                         yield {"fn": "dump", "fmt": fmt, "target": target, "mode": mode, "fmtarg": fmtarg, "kw": kw}
+                        if target == "str" and fmtarg == "explicit" and kw == 0:
+                            for alias in ("symlink", "hardlink"):
+                                yield {"fn": "dump", "fmt": fmt, "target": alias, "mode": mode, "fmtarg": fmtarg, "kw": kw}
                         if target == "stream" and mode == "a" and kw in (0, 1):
                             for sk in ("file", "tempfile", "codecs", "duck"):
                                 yield {"fn": "dump", "fmt": fmt, "target": target, "mode": mode, "fmtarg": fmtarg, "kw": kw, "stream_kind": sk}
